@@ -11,6 +11,7 @@ scratch=$(mktemp -d /tmp/benignmx-ev.XXXX); mkdir -p $scratch/evidence; cp known
 trap 'git -C /repo worktree remove --force '$wt'; rm -rf '$scratch EXIT
 export GOMAXPROCS=4 GOFLAGS=-mod=readonly GOWORK=off GOPROXY=off GOSUMDB=off GOTOOLCHAIN=local CGO_ENABLED=0
 for d in "$@"; do
+  d=$(cd "$d" && pwd)
   [ -f $d/patch.diff ] || { echo "$d: no patch"; continue; }
   git -C $wt checkout -q -- . ; git -C $wt clean -fdq
   git -C $wt apply $d/patch.diff 2>/dev/null || { echo "$d: patch does not apply"; continue; }
